@@ -343,6 +343,10 @@ fn read<R: Read>(
     };
 
     for diagnostic in diagnostics {
+        if diagnostic.severity == Severity::Allow {
+            continue;
+        }
+
         if opts.luacheck {
             #[cfg(feature = "verif-hooks")]
             verif_trace::event(&format!(
